@@ -102,6 +102,22 @@ pub fn gen_client_history(property: &str, seed: u64) -> ClientHistory {
                     // the subscription ran out while the tower was away: the retrier is the first to learn about it
                     ops.push(COp::Lapse { t });
                 }
+                if r.chance(1, 6) {
+                    // the tower comes back but keeps refusing the appointments whatever is renewed: the client backs off,
+                    // gives up, idles and tries again, for as long as it lasts
+                    ops.push(COp::Default { t, reply: Reply::Accept });
+                    ops.push(COp::LapseForGood { t });
+                    if r.chance(1, 2) {
+                        ops.push(COp::Latency { t, ms: *r.pick(&[20u32, 500, 5000]) });
+                    }
+                    if next_c > 0 && r.chance(1, 2) {
+                        ops.push(COp::Revoke { c: next_c });
+                        next_c += 1;
+                    }
+                    ops.push(COp::Advance { secs: cfg.max_retry_time + cfg.auto_retry_delay + 3 * cfg.max_interval + 30 + r.range(0, 60) as u32 });
+                    ops.push(COp::ListTowers);
+                    ops.push(COp::Latency { t, ms: 20 });
+                }
                 ops.push(COp::Default { t, reply: Reply::Accept });
                 ops.push(COp::Advance { secs: cfg.auto_retry_delay + 2 * cfg.max_interval + 15 });
             }
